@@ -52,6 +52,7 @@ def _num(c):
     return float(c)
 
 
+KEEP = None      # a list: every Point built by P() is recorded as (object, coordinates as passed) - the caller keeps its arguments
 SHARE = False    # True: every Point handed to a constructor by to_lib() also serves other, later moved, lines /
                  # segments / half-lines, before and after the construction (see shared_points())
 _CREATED = []
@@ -59,6 +60,8 @@ _CREATED = []
 
 def P(p):
     pt = Point(_num(p[0]), _num(p[1]), _num(p[2]))
+    if KEEP is not None:
+        KEEP.append((pt, (_num(p[0]), _num(p[1]), _num(p[2]))))
     if SHARE:
         use_point_elsewhere(pt)
         _CREATED.append(pt)
